@@ -1,6 +1,6 @@
 """Master::go (src/lib.rs): the chain of stages built for every option subset; validation-before-I/O ordering;
 which sorter gets a capacity. All create_process bodies are inlined, from_str / get_processor are 'Ok(opaque) or Err'."""
-import itertools, json
+import itertools, json, re
 import z3
 from .lib import *
 from .mirsym import Unmodelled
@@ -38,7 +38,12 @@ def s_get_processor(ex, st, func, args, ty):
     return out
 
 
-def s_box_new(ex, st, func, args, ty): return [(st, mkbox(st, args[0]))]
+def s_box_new(ex, st, func, args, ty):
+    a = args[0]
+    if isinstance(a, Const):            # Box::new(UnitStruct): a stage without fields (and so without a successor)
+        nm = re.sub(r'^const\s+', '', a.text or 'unit').split('::')[-1].strip()
+        a = named(st, nm, nm)
+    return [(st, mkbox(st, a))]
 
 
 def s_preset(ex, st, func, args, ty):
@@ -536,7 +541,7 @@ def replay_chain(ctx, c):
     tries = []
     n_sel = o.get('n_select', 0) or 0; n_sort = o.get('n_sort', 0) or 0
     ROWS = ROWS3 if n_sort >= 3 or n_sel >= 3 else globals()['ROWS']
-    for skip, take in ((1, 2), (0, 1), (0, 2), (2, None)):
+    for skip, take in ((1, 2), (0, 1), (0, 2), (2, None), (0, 0), (1, 0)):
         argv = []; kw = {}
         if o.get('n_set'): argv += ['--set', 'v=1']
         if o.get('split') in (True, 'True'): argv += ['--split-by', '.l']; kw['split'] = '.l'
